@@ -205,6 +205,8 @@ ProtocolErrors == H2Exceptions \ {"RFC1122Error"}
 \* (known finding header_frame_exceeds_limit: the frame-size assertion fails after the frames were written)
 \* (o is what the step itself wrote unless it also handed over frames that earlier steps had left in the buffer)
 OwnOutput == src = <<>> \/ IsAp(last) \/ src[1][last.x].out = <<>>
+\* o is exactly what the step wrote: it was peeked at (ap), or taken from a buffer that was empty before the step
+ExactOutput == IsAp(last) \/ (~NoFlush(last) /\ src[1][last.x].out = <<>>)
 RaisingCallEmitsNothing == (IsCall /\ last.p.r.c # "ok" /\ OwnOutput) =>
                               (last.p.o = <<>> \/ Excused({"upgrade_raises_after_preamble", "header_frame_exceeds_limit"}))
 \* C29 / C17: only documented exception classes
@@ -228,13 +230,24 @@ Cooked(f) == IF f.t # "RAW" THEN f
 InFrames == CASE last.a = "recv" -> [i \in 1..Len(last.fs) |-> Cooked(ResolveFrame(last.fs[i], Pre))]
               [] last.a = "dlv"  -> SubSeq(src[2][last.x], 1, last.k)
               [] OTHER           -> <<>>
-OneFrame(ty) == HasSrc /\ last.a = "recv" /\ Len(last.fs) = 1 /\ last.fs[1].t = ty
+\* the single frame of an input as the frame layer hands it to the connection: a raw frame parsed under the frame-size limit
+\* in force (refused frames and fragments of header blocks are of no interest to the formulas), any other frame as it is;
+\* nothing left over from an earlier input, not in the middle of a header block, the preface already read
+F1 == IF last.fs[1].t # "RAW" THEN last.fs[1]
+      ELSE LET p == RawParse(ResolveFrame(last.fs[1], Pre), Pre.mif) IN IF p.k = "ok" /\ p.f.t # "FRAG" THEN p.f ELSE [t |-> "NONE"]
+OneInput == HasSrc /\ last.a = "recv" /\ Len(last.fs) = 1 /\ Pre.pend = <<>> /\ Pre.hb = <<>> /\ (last.fs[1].t = "RAW" => ~Pre.needPre)
+OneFrame(ty) == OneInput /\ F1.t = ty
+OneRaw == OneInput /\ last.fs[1].t = "RAW"
 ROk == last.p.r.c = "ok"
 OutF == last.p.o
 RECURSIVE SumSeq(_)
 SumSeq(s) == IF s = <<>> THEN 0 ELSE s[1] + SumSeq(Tail(s))
 FclOf(f) == f.n + (IF f.pad >= 0 THEN f.pad + 1 ELSE 0)
 Count(seq, P(_)) == Len(SelectSeq(seq, P))
+IsSetNoAck(f) == f.t = "SET" /\ ~f.ack
+IsSetAck(f) == f.t = "SET" /\ f.ack
+IsRSet(e) == e.t = "RSet"
+IsGoAway(f) == f.t = "GOAWAY"
 \* the model-internal frames (header fields as tokens) the call of this step appends
 CallOutTokens == Call(Pre, ResolveCall(last.c)).ep.out
 
@@ -276,7 +289,7 @@ P_C03_WindowsBounded ==
 \* C04: a DATA frame overrunning the advertised connection window is a FLOW_CONTROL_ERROR; FlowControlError only on overrun
 P_C04_InboundDataExactlyAtWindow ==
   OneFrame("DATA") =>
-     LET f == last.fs[1]
+     LET f == F1
          fcl == FclOf(f)
      IN /\ (Pre.conn # "CLOSED" /\ <<Pre.conn, "RECV_DATA">> \in DOMAIN ConnTable /\ fcl > 0 /\ fcl > Pre.iw.cur) => last.p.r.c = "FlowControlError"
         /\ (fcl = 0) => last.p.r.c # "FlowControlError"
@@ -284,7 +297,7 @@ P_C04_InboundDataExactlyAtWindow ==
              (fcl > Pre.iw.cur \/ (Has(Pre, f.sid) /\ fcl > Pre.streams[f.sid].iw.cur))
 \* C04: the connection window moves only by WINDOW_UPDATEs actually emitted and DATA actually received
 P_C04_RemoteWindowIsAdvertised ==
-  (HasSrc /\ ROk /\ ~NoFlush(last) /\ Pre.out = <<>>) =>
+  (HasSrc /\ ROk /\ ExactOutput /\ Count(InFrames, IsGoAway) = 0) =>      \* (a GOAWAY discards the unsent output, C19)
      LET wus == SelectSeq(OutF, LAMBDA f : f.t = "WU" /\ f.sid = 0)
          ds  == SelectSeq(InFrames, LAMBDA f : f.t = "DATA")
      IN Post.iw.cur - Pre.iw.cur = SumSeq([i \in 1..Len(wus) |-> wus[i].inc]) - SumSeq([i \in 1..Len(ds) |-> FclOf(ds[i])])
@@ -339,19 +352,15 @@ P_C10_OutboundWithinPeerLimit ==
      IN n1 > n0 => (~SHas(Pre.rs, 3) \/ SCur(Pre.rs, 3) < 0 \/ n1 <= SCur(Pre.rs, 3))
 \* C10: a received frame that adds an inbound open stream is within the own (acknowledged) limit in force before it
 P_C10_InboundWithinLocalLimit ==
-  (HasSrc /\ Clean /\ last.a = "recv" /\ Len(last.fs) = 1 /\ last.fs[1].t = "HEADERS") =>
+  (Clean /\ OneFrame("HEADERS")) =>
      LET par == 1 - MyParity(Post)
          n0 == CountOpen(Pre, par)
          n1 == CountOpen(Post, par)
      IN n1 > n0 => (~SHas(Pre.ls, 3) \/ SCur(Pre.ls, 3) < 0 \/ n1 <= SCur(Pre.ls, 3))
 \* C11: every SETTINGS frame of the peer is acknowledged exactly once and reported exactly once
-IsSetNoAck(f) == f.t = "SET" /\ ~f.ack
-IsSetAck(f) == f.t = "SET" /\ f.ack
-IsRSet(e) == e.t = "RSet"
-IsGoAway(f) == f.t = "GOAWAY"
 \* (a GOAWAY received later in the same call discards the unsent output, C19: the ACK count of such calls is not constrained)
 P_C11_PeerSettingsAckedOnce ==
-  (HasSrc /\ IsRecv /\ ROk /\ ~NoFlush(last) /\ Pre.out = <<>>) =>
+  (HasSrc /\ IsRecv /\ ROk /\ ExactOutput) =>
      /\ Count(InFrames, IsGoAway) = 0 => Count(OutF, IsSetAck) = Count(InFrames, IsSetNoAck)
      /\ Count(last.p.e, IsRSet) = Count(InFrames, IsSetNoAck)
 \* C12: update_settings succeeds exactly on valid values; a bad received value gives the mandated code
@@ -361,8 +370,8 @@ P_C12_SettingsValidation ==
         /\ ROk => AllValid(last.c.s)
         /\ (AllValid(last.c.s) /\ <<Pre.conn, "SEND_SETTINGS">> \in DOMAIN ConnTable) => ROk
         /\ (~AllValid(last.c.s) /\ OwnOutput) => OutF = <<>>
-  /\ (OneFrame("SET") /\ ~last.fs[1].ack /\ <<Pre.conn, "RECV_SETTINGS">> \in DOMAIN ConnTable) =>
-        LET fs == Collapse(last.fs[1].s) IN
+  /\ (OneFrame("SET") /\ ~F1.ack /\ <<Pre.conn, "RECV_SETTINGS">> \in DOMAIN ConnTable) =>
+        LET fs == Collapse(F1.s) IN
         IF AllValid(fs) THEN last.p.r.c # "InvalidSettingsValueError"
         ELSE LET i == CHOOSE j \in 1..Len(fs) : ValidateSetting(fs[j][1], fs[j][2]) # 0 /\
                                                \A k \in 1..(j-1) : ValidateSetting(fs[k][1], fs[k][2]) = 0
@@ -381,14 +390,14 @@ P_C14_EmittedBlocksConformant ==
 InTokOK(t) == ~t.nu /\ ~t.ne /\ ~t.nw /\ ~t.vlead /\ ~t.vtrail /\ ~BadConn(t) /\ ~BadTE(t) /\ (t.np => t.n \in KnownPseudo)
 IsHdrEvent(e) == e.t \in {"Req", "Resp", "Info", "Trl", "Push"}
 P_C15_DeliveredBlocksConformant ==
-  (HasSrc /\ last.a = "recv" /\ Len(last.fs) = 1 /\ last.fs[1].t \in {"HEADERS", "PP"} /\ Pre.cfg.vi) =>
-     LET h == CombineCookies(FrameTokens(last.fs[1])) IN
+  (OneInput /\ F1.t \in {"HEADERS", "PP"} /\ Pre.cfg.vi) =>
+     LET h == CombineCookies(FrameTokens(F1)) IN
      /\ (ROk /\ Count(last.p.e, IsHdrEvent) > 0) => \A j \in 1..Len(h) : InTokOK(h[j]) /\ ~OutOfSeq(h, j)
      /\ (\E j \in 1..Len(h) : ~InTokOK(h[j]) \/ OutOfSeq(h, j)) => Count(last.p.e, IsHdrEvent) = 0
 \* C16: DATA against content-length
 P_C16_ContentLength ==
-  (OneFrame("DATA") /\ Has(Pre, last.fs[1].sid) /\ ~Excused({"content_length_rule_differs"})) =>
-     LET f == last.fs[1]
+  (OneFrame("DATA") /\ Has(Pre, F1.sid) /\ ~Excused({"content_length_rule_differs"})) =>
+     LET f == F1
          s == Pre.streams[f.sid]
          tot == s.acl + f.n
          \* a response defined to have no content is refused exactly when it carries payload, whatever it declares;
@@ -400,7 +409,7 @@ P_C16_ContentLength ==
 \* C18: a receive that raises a ProtocolError emits exactly one GOAWAY carrying the exception's code and the
 \* highest peer-initiated stream id; the code for an undecodable block is excused by the marked deviation
 P_C18_OneGoAwayWithCode ==
-  (HasSrc /\ IsRecv /\ ~ROk /\ last.p.r.c \in ProtocolErrors /\ ~NoFlush(last) /\ Pre.out = <<>>
+  (HasSrc /\ IsRecv /\ ~ROk /\ last.p.r.c \in ProtocolErrors /\ ExactOutput
      /\ ~Pre.needPre) =>      \* (only for an invalid client preface may the GOAWAY be omitted)
      /\ Count(OutF, IsGoAway) = 1
      /\ OutF[Len(OutF)].t = "GOAWAY" /\ OutF[Len(OutF)].code = last.p.r.e /\ OutF[Len(OutF)].last = Post.hiIn
@@ -422,7 +431,7 @@ SizeViolation(f, lim) ==
      \/ f.typ = 5 /\ l1 < 4
 SidViolation(f) == (f.typ \in {0, 1, 2, 3, 5, 9} /\ f.sid = 0) \/ (f.typ \in {4, 6, 7} /\ f.sid # 0)
 P_C18_SizeViolationsAreFrameSizeErrors ==
-  (OneFrame("RAW") /\ ~Pre.needPre /\ Pre.pend = <<>> /\ Pre.hb = <<>> /\ ~SidViolation(last.fs[1])
+  (OneRaw /\ ~SidViolation(last.fs[1])
      /\ SizeViolation(last.fs[1], Pre.mif) /\ ~Excused({"settings_ack_length_code"})) =>
      last.p.r.e = 6 /\ last.p.r.c \in {"FrameTooLargeError", "FrameDataMissingError"}
 \* C19: a closed connection emits nothing but GOAWAY, and calls that would emit raise
@@ -434,22 +443,22 @@ P_C19_ClosedStaysQuiet ==
 \* C19: a received GOAWAY discards whatever the application has not yet taken: with GOAWAY as the last frame of the input,
 \* nothing is handed over, whatever was waiting
 P_C19_GoAwayDiscardsOutput ==
-  (HasSrc /\ last.a = "recv" /\ ROk /\ ~NoFlush(last) /\ Len(last.fs) > 0 /\ last.fs[Len(last.fs)].t = "GOAWAY") => OutF = <<>>
+  (HasSrc /\ last.a = "recv" /\ ROk /\ ~NoFlush(last) /\ Len(last.fs) > 0 /\ InFrames[Len(InFrames)].t = "GOAWAY") => OutF = <<>>
 \* C20: frames on a locally reset stream are never connection errors and never produce events for it
 P_C20_ResetRacesAreStreamErrors ==
-  (HasSrc /\ last.a = "recv" /\ Len(last.fs) = 1 /\ last.fs[1].t \in {"HEADERS", "DATA", "WU", "RST"}
-     /\ ClosedBy(Pre, last.fs[1].sid) = "SRST" /\ Pre.conn # "CLOSED" /\ Pre.pend = <<>>
+  (OneInput /\ F1.t \in {"HEADERS", "DATA", "WU", "RST"}
+     /\ ClosedBy(Pre, F1.sid) = "SRST" /\ Pre.conn # "CLOSED" /\ Pre.pend = <<>>
      \* both before and after the closed stream's record has been collected
-     /\ (Has(Pre, last.fs[1].sid) => Pre.streams[last.fs[1].sid].st = "CLOSED")
-     /\ (last.fs[1].t = "DATA" => (FclOf(last.fs[1]) <= Pre.iw.cur /\ FclOf(last.fs[1]) <= Pre.mif))
+     /\ (Has(Pre, F1.sid) => Pre.streams[F1.sid].st = "CLOSED")
+     /\ (F1.t = "DATA" => (FclOf(F1) <= Pre.iw.cur /\ FclOf(F1) <= Pre.mif))
      \* a well-formed header block the decoder accepts (anything else is the peer's error, not a race)
-     /\ (last.fs[1].t = "HEADERS" => LET h == FrameTokens(last.fs[1]) IN
-            /\ last.fs[1].blk = "ok" /\ ~(IsInformational(h) /\ last.fs[1].es)
+     /\ (F1.t = "HEADERS" => LET h == FrameTokens(F1) IN
+            /\ F1.blk = "ok" /\ ~(IsInformational(h) /\ F1.es)
             /\ (Pre.hdrCap < 0 \/ ListSize(h) <= Pre.hdrCap)
             /\ last.p.r.c \notin {"ProtocolError"} \/ ~Pre.dl)
      /\ ~Pre.dl /\ last.p.r.c # "TooManyStreamsError") =>
      /\ ROk
-     /\ \A i \in 1..Len(last.p.e) : "sid" \in DOMAIN last.p.e[i] => last.p.e[i].sid # last.fs[1].sid
+     /\ \A i \in 1..Len(last.p.e) : "sid" \in DOMAIN last.p.e[i] => last.p.e[i].sid # F1.sid
 \* C22: PUSH_PROMISE leaves only a server, only while the client allows push; a client with push disabled refuses it
 P_C22_PushOnlyWhenAllowed ==
   /\ (HasSrc /\ IsCall /\ last.c.op = "push" /\ ROk) =>
@@ -490,7 +499,7 @@ IsPingNoAck(f) == f.t = "PING" /\ ~f.ack
 IsPingAck(f) == f.t = "PING" /\ f.ack
 \* (a GOAWAY received later in the same call discards the unsent output, C19: such calls are not constrained here)
 P_C26_PingAnsweredOnce ==
-  (HasSrc /\ IsRecv /\ ROk /\ ~NoFlush(last) /\ Pre.out = <<>> /\ Count(InFrames, IsGoAway) = 0) =>
+  (HasSrc /\ IsRecv /\ ROk /\ ExactOutput /\ Count(InFrames, IsGoAway) = 0) =>
      LET ins == SelectSeq(InFrames, IsPingNoAck)
          outs == SelectSeq(OutF, IsPingAck)
      IN [i \in 1..Len(ins) |-> ins[i].tag] = [i \in 1..Len(outs) |-> outs[i].tag]
@@ -499,6 +508,84 @@ P_C27_ClosedMemoryBounded == \A x \in Roles : Len(eps[x].closed) <= eps[x].maxCl
 P_C27_NoStateForNonOpeningFrames ==
   (HasSrc /\ last.a = "recv" /\ \A i \in 1..Len(last.fs) : last.fs[i].t \in {"PRIO", "WU", "RST", "UNKNOWN", "PING", "ALT"}) =>
      DOMAIN Post.streams \subseteq DOMAIN Pre.streams
+
+\* ---------------------------------------------------------------- non-vacuity: cases of the formulas, counted by TLC
+\* Each entry names a situation one of the formulas above speaks about (usually: its antecedent together with one side of its
+\* case split).  TLC counts, per run, in how many of the states it evaluated the formulas the situation was present
+\* (registers 200+i; printed as CASES at the end of the run).  A formula whose cases never occur in a run was checked vacuously
+\* there; the counts go into the evidence.  (harness/tlcrun.py reads the names from this block: one <<"name", predicate>> per line)
+HasDataCall == HasSrc /\ IsCall /\ last.c.op = "data" /\ last.c.pad <= 255 /\ Has(Pre, last.c.sid)
+DataCallOver == HasDataCall /\ FclOf(last.c) > Min(Pre.ow, Pre.streams[last.c.sid].ow)
+RecvOwn == HasSrc /\ IsRecv /\ ExactOutput
+OneHdr == OneInput /\ F1.t \in {"HEADERS", "PP"}
+HdrBad(h) == \E j \in 1..Len(h) : ~InTokOK(h[j]) \/ OutOfSeq(h, j)
+Cases == <<
+  <<"C01/delivery between clean open endpoints", Pair /\ HasSrc /\ last.a = "dlv" /\ AllClean /\ \A x \in Roles : src[1][x].conn # "CLOSED">>,
+  <<"C29/a call raises", IsCall /\ last.p.r.c # "ok" /\ OwnOutput>>,
+  <<"C17/a receive raises", IsRecv /\ last.p.r.c # "ok">>,
+  <<"C02/DATA emitted", HasSrc /\ OwnOutput /\ \E i \in 1..Len(OutF) : OutF[i].t = "DATA">>,
+  <<"C02/header block emitted with observed frame sizes", HasSrc /\ OwnOutput /\ \E i \in 1..Len(OutF) : "sizes" \in DOMAIN OutF[i]>>,
+  <<"C02/header block in several frames", HasSrc /\ OwnOutput /\ \E i \in 1..Len(OutF) : "sizes" \in DOMAIN OutF[i] /\ Len(OutF[i].sizes) > 1>>,
+  <<"C03/send_data within the windows", HasDataCall /\ ~DataCallOver /\ ROk>>,
+  <<"C03/send_data exactly at the window", HasDataCall /\ ROk /\ FclOf(last.c) > 0 /\ FclOf(last.c) = Min(Pre.ow, Pre.streams[last.c.sid].ow)>>,
+  <<"C03/send_data beyond a window", DataCallOver>>,
+  <<"C04/DATA beyond the connection window", OneFrame("DATA") /\ Pre.conn # "CLOSED" /\ FclOf(F1) > 0 /\ FclOf(F1) > Pre.iw.cur>>,
+  <<"C04/DATA refused for flow control", OneFrame("DATA") /\ last.p.r.c = "FlowControlError">>,
+  <<"C04/DATA accepted", OneFrame("DATA") /\ ROk /\ FclOf(F1) > 0>>,
+  <<"C04/connection WINDOW_UPDATE emitted", RecvOwn /\ ROk /\ \E i \in 1..Len(OutF) : OutF[i].t = "WU" /\ OutF[i].sid = 0>>,
+  <<"C05/acknowledge emits an increment", HasSrc /\ IsCall /\ last.c.op = "ack" /\ ROk /\ \E i \in 1..Len(OutF) : OutF[i].t = "WU">>,
+  <<"C05/everything acknowledged on a receiving stream", \E x \in Roles : eps[x].conn # "CLOSED" /\ \E sid \in DOMAIN eps[x].streams : CanReceive(eps[x].streams[sid]) /\ eps[x].streams[sid].un = 0 /\ eps[x].streams[sid].iw.cur < eps[x].streams[sid].iw.max>>,
+  <<"C06/a stream closes", HasSrc /\ \E sid \in DOMAIN Post.streams : Post.streams[sid].st = "CLOSED" /\ (~Has(Pre, sid) \/ Pre.streams[sid].st # "CLOSED")>>,
+  <<"C06/a closed stream is touched", HasSrc /\ \E sid \in DOMAIN Pre.streams : Pre.streams[sid].st = "CLOSED" /\ ((IsCall /\ last.c.op \in {"hdr", "data", "end", "rst", "push", "ack"} /\ last.c.sid = sid) \/ (last.a = "recv" /\ \E i \in 1..Len(last.fs) : "sid" \in DOMAIN last.fs[i] /\ last.fs[i].sid = sid))>>,
+  <<"C07/events reported to a clean endpoint", HasSrc /\ Clean /\ IsRecv /\ last.p.e # <<>>>>,
+  <<"C07/events on a stream that already has event history", HasSrc /\ Clean /\ IsRecv /\ \E i \in 1..Len(last.p.e) : "sid" \in DOMAIN last.p.e[i] /\ last.p.e[i].sid \in DOMAIN Pre.eg>>,
+  <<"C08/a clean call emits", Clean /\ IsCall /\ OutF # <<>>>>,
+  <<"C08/a clean send is refused", Clean /\ IsCall /\ last.c.op \in {"hdr", "data", "end", "push", "alt", "prio"} /\ last.p.r.c = "ProtocolError">>,
+  <<"C09/an id is consumed", HasSrc /\ (Post.hiOut > Pre.hiOut \/ Post.hiIn > Pre.hiIn)>>,
+  <<"C09/an id is refused as too low", IsStep /\ last.p.r.c = "StreamIDTooLowError">>,
+  <<"C10/an outbound stream opens under a limit", HasSrc /\ Clean /\ CountOpen(Post, MyParity(Post)) > CountOpen(Pre, MyParity(Post)) /\ SHas(Pre.rs, 3)>>,
+  <<"C10/TooManyStreamsError", IsStep /\ last.p.r.c = "TooManyStreamsError">>,
+  <<"C10/an inbound stream opens", Clean /\ OneFrame("HEADERS") /\ CountOpen(Post, 1 - MyParity(Post)) > CountOpen(Pre, 1 - MyParity(Post))>>,
+  <<"C11/peer SETTINGS received and acknowledged", RecvOwn /\ ROk /\ Count(InFrames, IsSetNoAck) > 0>>,
+  <<"C11/several peer SETTINGS in one call", RecvOwn /\ ROk /\ Count(InFrames, IsSetNoAck) > 1>>,
+  <<"C11/SETTINGS ACK received with changes pending", HasSrc /\ IsRecv /\ ROk /\ Count(InFrames, IsSetAck) > 0 /\ \E i \in 1..Len(last.p.e) : last.p.e[i].t = "SAck" /\ last.p.e[i].ch # <<>>>>,
+  <<"C12/update_settings with an invalid value", HasSrc /\ IsCall /\ last.c.op = "set" /\ ~AllValid(last.c.s)>>,
+  <<"C12/update_settings with valid values", HasSrc /\ IsCall /\ last.c.op = "set" /\ AllValid(last.c.s) /\ last.c.s # <<>>>>,
+  <<"C12/received SETTINGS with an invalid value", OneFrame("SET") /\ ~F1.ack /\ ~AllValid(Collapse(F1.s))>>,
+  <<"C13/a header-carrying call raises", HasSrc /\ IsCall /\ last.c.op \in {"hdr", "push"} /\ ~ROk>>,
+  <<"C13/header block delivered to the peer", Pair /\ HasSrc /\ last.a = "dlv" /\ \E i \in 1..Len(InFrames) : InFrames[i].t \in {"HEADERS", "PP"}>>,
+  <<"C14/header block emitted under the default configuration", HasSrc /\ IsCall /\ ROk /\ last.c.op \in {"hdr", "push"} /\ Pre.cfg = DefaultCfg>>,
+  <<"C14/header list refused", HasSrc /\ IsCall /\ last.c.op \in {"hdr", "push"} /\ Pre.cfg = DefaultCfg /\ last.p.r.c = "ProtocolError">>,
+  <<"C15/conformant block delivered", OneHdr /\ Pre.cfg.vi /\ ROk /\ Count(last.p.e, IsHdrEvent) > 0>>,
+  <<"C15/non-conformant block received", OneHdr /\ Pre.cfg.vi /\ HdrBad(CombineCookies(FrameTokens(F1)))>>,
+  <<"C16/DATA on a message with a declared length", OneFrame("DATA") /\ Has(Pre, F1.sid) /\ Pre.streams[F1.sid].scl # <<>>>>,
+  <<"C16/InvalidBodyLengthError", IsStep /\ last.p.r.c = "InvalidBodyLengthError">>,
+  <<"C16/DATA on a response without content", OneFrame("DATA") /\ Has(Pre, F1.sid) /\ Pre.streams[F1.sid].snc>>,
+  <<"C18/connection error with GOAWAY", RecvOwn /\ ~ROk /\ last.p.r.c \in ProtocolErrors /\ ~Pre.needPre>>,
+  <<"C18/frame with a size violation", OneRaw /\ ~SidViolation(last.fs[1]) /\ SizeViolation(last.fs[1], Pre.mif)>>,
+  <<"C19/step on a closed connection", HasSrc /\ Pre.conn = "CLOSED" /\ Pre.out = <<>>>>,
+  <<"C19/emitting call on a closed connection", HasSrc /\ Pre.conn = "CLOSED" /\ IsCall /\ last.c.op \in {"hdr", "data", "end", "inc", "push", "ping", "rst", "set", "alt", "prio"}>>,
+  <<"C19/GOAWAY received with output waiting", HasSrc /\ last.a = "recv" /\ ROk /\ ~NoFlush(last) /\ Len(last.fs) > 0 /\ last.fs[Len(last.fs)].t = "GOAWAY" /\ Pre.out # <<>>>>,
+  <<"C20/frame on a locally reset stream", OneInput /\ F1.t \in {"HEADERS", "DATA", "WU", "RST"} /\ ClosedBy(Pre, F1.sid) = "SRST" /\ Pre.conn # "CLOSED">>,
+  <<"C20/frame on a reset stream already collected", OneInput /\ F1.t \in {"HEADERS", "DATA", "WU", "RST"} /\ ClosedBy(Pre, F1.sid) = "SRST" /\ ~Has(Pre, F1.sid) /\ Pre.conn # "CLOSED">>,
+  <<"C22/push succeeds", HasSrc /\ IsCall /\ last.c.op = "push" /\ ROk>>,
+  <<"C22/push refused", HasSrc /\ IsCall /\ last.c.op = "push" /\ ~ROk>>,
+  <<"C22/PUSH_PROMISE with push disabled", OneFrame("PP") /\ SCur(Pre.ls, 2) = 0>>,
+  <<"C22/PUSH_PROMISE accepted", OneFrame("PP") /\ ROk /\ \E i \in 1..Len(last.p.e) : last.p.e[i].t = "Push">>,
+  <<"C23/PRIORITY received", OneFrame("PRIO") /\ ROk>>,
+  <<"C23/prioritize called", HasSrc /\ IsCall /\ last.c.op = "prio">>,
+  <<"C24/advertisement sent", HasSrc /\ IsCall /\ last.c.op = "alt" /\ ROk>>,
+  <<"C24/advertisement reported", IsRecv /\ \E i \in 1..Len(last.p.e) : last.p.e[i].t = "Alt">>,
+  <<"C25/upgrade of a fresh connection", HasSrc /\ IsCall /\ last.c.op = "upg" /\ ROk /\ Pre.conn = "IDLE" /\ Pre.streams = <<>>>>,
+  <<"C25/server handed the client's value", Pair /\ HasSrc /\ IsCall /\ last.c.op = "upg" /\ ROk /\ last.x = "s" /\ last.c.src = "peer">>,
+  <<"C26/PING answered", RecvOwn /\ ROk /\ Count(InFrames, IsPingNoAck) > 0 /\ Count(InFrames, IsGoAway) = 0>>,
+  <<"C26/several PINGs in one call", RecvOwn /\ ROk /\ Count(InFrames, IsPingNoAck) > 1>>,
+  <<"C27/closed-stream memory full", \E x \in Roles : Len(eps[x].closed) = eps[x].maxClosed /\ eps[x].maxClosed > 0>>,
+  <<"C27/non-opening frame on an unknown stream", HasSrc /\ last.a = "recv" /\ \E i \in 1..Len(last.fs) : last.fs[i].t \in {"PRIO", "WU", "RST"} /\ last.fs[i].sid # 0 /\ ~Has(Pre, last.fs[i].sid)>> >>
+NCases == 80
+ASSUME \A i \in 1..NCases : TLCSet(200 + i, 0)
+CountCases == \A i \in 1..Len(Cases) : Cases[i][2] => TLCSet(200 + i, TLCGet(200 + i) + 1)
+PrintCases == PrintT("CASES " \o ToJson([i \in 1..NCases |-> TLCGet(200 + i)]))
 
 \* ---------------------------------------------------------------- emission of behaviours for replay
 Meta == [roles |-> Roles, qsids |-> QSids, max_closed |-> MaxClosed,
